@@ -175,7 +175,10 @@ func ruleReleasers(c *Ctx, rule string, part string) {
 			keySame := guardEdges(fn, predEq(func(v ssa.Value) bool {
 				b, n, ok := fieldLoad(v)
 				return ok && n == "Key" && (b == rec || unspill(b) == rec || allocHolds(b, rec))
-			}, func(v ssa.Value) bool { _, isC := v.(*ssa.Const); return !isC && pathEndsWith(v, "Key") || pathEndsWith(v, "KeyInDB") }))
+			}, func(v ssa.Value) bool {
+				_, isC := v.(*ssa.Const)
+				return !isC && pathEndsWith(v, "Key") || pathEndsWith(v, "KeyInDB")
+			}))
 			if len(frees) == 0 {
 				c.undecided(rule, fn, "freeing calls", nil, "no unassign/reserve/release/unbind call found")
 			}
@@ -287,7 +290,6 @@ func stripStringCall(v ssa.Value) ssa.Value {
 	}
 	return v
 }
-
 
 // C04.R3 — fail-safe liveness test.
 func ruleLivenessFailSafe(c *Ctx, rule string) {
